@@ -16,6 +16,9 @@ extrude left|right|top|bottom W H [new…] [screen…]            → ok […]  
 arext left|right|top|bottom W H amp [screen…] [stencil positions…] [normals…] [A row];[A row]… [B row];…
       → ok [new screen…]        numeric `_extrude`: A·screen[stencil] + B·normals·amp, then the list surgery (exact rationals)
 phasefor a λ                                                   → ok a/λ
+synth M [x…] [y…] [kx…] [ky…] [Re C…] [Im C…]                  → ok [a_0,…,a_{M-1}];…   one list per point (x fastest):
+      `Shift.synth` with the exact character `cycChar M` into ℚ[ℤ/M] (kx, ky in turns per length: kx[m]·x[n] ∈ (1/M)ℤ; 4 ∣ M;
+      i = X^(M/4)); the value of `fourier.backward(C)` at the point is Σ_r a_r e^{2πi r/M}
 hfin new int|gen|genshared nx ny vx vy cn2 L0 seed | hfin evolve t | reset b | setcn2 c | setl0 l | setvel vx vy | read |
      cdraw n  (the caller draws n numbers from the generator it passed as `seed=`)
       → the `fin` answer of the view + valid=0|1 cache=0|1 caller=P|- al=<rng is orig><orig is caller><rng is caller>
@@ -227,6 +230,15 @@ def step (st : St) : List String → St × String
       if scr.length ≠ H * W || A.length ≠ (if w.horizontal then H else W) || B.length ≠ A.length then (st, "err value")
       else (st, "ok " ++ showRatList (arExtrude w W H A B idx rnd amp scr))
     | _, _, _, _, _, _, _, _, _ => (st, "bad-op")
+  | ["synth", M, xs, ys, kx, ky, cre, cim] =>
+    match parseNat? M, parseRatList? xs, parseRatList? ys, parseRatList? kx, parseRatList? ky, parseRatList? cre,
+        parseRatList? cim with
+    | some M, some xs, some ys, some kx, some ky, some cre, some cim =>
+      if cre.length ≠ kx.length * ky.length then (st, "err value") else
+      match synthCyc M xs ys kx ky cre cim with
+      | some r => (st, "ok " ++ showRatLists r)
+      | none => (st, "err value")
+    | _, _, _, _, _, _, _ => (st, "bad-op")
   | ["phasefor", a, l] =>
     match parseRat? a, parseRat? l with
     | some a, some l => if l = 0 then (st, "err value") else (st, "ok " ++ showRat (phaseFor a l))
